@@ -7,11 +7,27 @@ META = {
     "level": "model_checking",
     "technique": "TLA+ spec of the blob pool (BlobPool.tla: add/replace with eviction, reset with reorg walk, reinjection from and offload into the limbo, finality, tip filter, Init on a directory after clean close and after an abrupt stop) model-checked with TLC; TLC-generated behaviours and seeded random operation sequences executed on the real blobpool.BlobPool on disk, every step validated against BlobPoolTrace.tla with all invariants",
     "text": "TLC explores all Add/Reset/SetGasTip/Reopen/Crash sequences over a small transaction universe, block tree and capacity and checks the C42 invariants on the model (nonce-contiguous from the state nonce, total cost affordable, index = store, limbo retains included transactions until finality, capacity after Add/Init, reopening reproduces the contents). Behaviours sampled by TLC and seeded random sequences (3 accounts, replacements at the price-bump boundary, forks, foreign inclusions, balance changes, finality, fee changes, clean restarts, abrupt stops = copy of the live directory reopened) run on a real BlobPool with real billy stores; after every operation the full white-box projection (index metas with eviction thresholds, spent, stored, lookup, eviction heap array, limbo index/groups, contents of both stores, reservations, Stats/Nonce/Pending/Has) is logged and TLC checks that each step is a step of the specification with exactly that successor state, that the implementation's bookkeeping agrees with it (incl. the heap property of the eviction heap under the specification's priorities) and that every invariant holds.",
-    "note": "Trusts TLC, the projection in harness/cmd/c42 and the read-only export blobpool/verif_export_pool.go. Fee-jump floats are produced by the implementation's own functions and treated as opaque attributes (x10^6); fee menus keep priorities away from rounding boundaries. Store ids are opaque (billy compacts on open). KZG validity and the tx->cell conversion of Add are bypassed (ValidateTxBasics + AddPooledTx with precomputed cells; C05 out of scope). Not modelled: gapped reorder buffer (state nonces kept below 9 so its allowance is 0), delegation limit, announcements, legacy sidecar conversion, multi-blob transactions. Crash = copy of the directory between operations (billy writes through on Put and never journals deletes), not a torn write inside a Put. KNOWN FINDINGS (spec/pool/NOTES.md, TODO-KNOWN-FINDING in BlobPool.tla / harness/cmd/c42): C42-recheck-gap-after-overlap (recheck keeps a list starting above the state nonce when a stale lower transaction was present; accounts excused via ghost misaligned), C42-limbo-stale-block (limbo keeps the old block number of a transaction included on both branches; excused via ghost stale), C42-add-panic-after-overflow (nil dereference in addLocked after the eviction loop dropped two transactions of the sender; the harness recovers from exactly this panic). The model's witnesses of the first two are replayed on the real pool in every run.",
+    "note": "Trusts TLC, the projection in harness/cmd/c42 and the read-only export blobpool/verif_export_pool.go. Fee-jump floats are produced by the implementation's own functions and treated as opaque attributes (x10^6); fee menus keep priorities away from rounding boundaries. Store ids are opaque (billy compacts on open). KZG validity and the tx->cell conversion of Add are bypassed (ValidateTxBasics + AddPooledTx with precomputed cells; C05 out of scope). Not modelled: gapped reorder buffer (state nonces kept below 9 so its allowance is 0), delegation limit, announcements, legacy sidecar conversion, multi-blob transactions. Crash = copy of the directory between operations (billy writes through on Put and never journals deletes), not a torn write inside a Put. KNOWN FINDINGS (open in known_findings.json, spec/pool/NOTES.md; every occurrence is counted by the driver and goes through ctx.known_finding): C42-recheck-gap-after-overlap (recheck keeps a list starting above the state nonce when a stale lower transaction was present; accounts excused via ghost misaligned), C42-limbo-stale-block (limbo keeps the old block number of a transaction included on both branches; excused via ghost stale), C42-add-panic-after-overflow (nil dereference in addLocked after the eviction loop dropped two transactions of the sender; the harness recovers from exactly this panic). The model's witnesses of the first two are replayed on the real pool in every run.",
     "design_ref": "3.6 C42",
 }
 
 T = 3600
+
+
+def pending(ctx, tally, summary):
+    """Collect the occurrences of open known findings a driver run observed (Summary.Extra["pending"])."""
+    for fid, v in (summary.get("extra", {}).get("pending") or {}).items():
+        t = tally.setdefault(fid, {"count": 0, "sample": v.get("sample")})
+        t["count"] += v.get("count", 0)
+
+
+def settle(ctx, tally):
+    """Every observed fingerprint must be an OPEN entry of known_findings.json, else it is a violation."""
+    for fid, t in sorted(tally.items()):
+        if t["count"] > 0 and not ctx.known_finding(fid):
+            ctx.violation("%s observed %d time(s) on the real pool and not listed as an open known finding" % (fid, t["count"]),
+                          {"kind": "finding", "finding": fid, "count": t["count"], "sample": t["sample"], "seed": ctx.seed, "tier": ctx.tier})
+        ctx.notes.append("known finding %s: fingerprint observed %d time(s) in this run" % (fid, t["count"]))
 
 
 def run(ctx):
@@ -21,9 +37,9 @@ def run(ctx):
         if ctx.thorough and r.zero_cov:
             ctx.notes.append("actions with zero coverage in %s: %s" % (cfg, sorted(set(r.zero_cov))))
     traces = []
-    panics = 0
-    # TODO-KNOWN-FINDING C42-recheck-gap-after-overlap / C42-limbo-stale-block: the model's witnesses of the strict
-    # properties failing are replayed on the real pool; the evidence records how many reproduce there.
+    tally = {}
+    # KNOWN-FINDINGS C42-recheck-gap-after-overlap / C42-limbo-stale-block (open in known_findings.json): the model's
+    # witnesses of the strict properties failing are replayed on the real pool; the drivers count every fingerprint.
     for kind, cfg, tag in (("gap", "pool/MCBlobPoolGap", "NGAP"), ("limbo", "pool/MCBlobPoolLimbo", "LIMBO")):
         g = ctx.model_check("pool/MCBlobPool", cfg, tags=(tag,), timeout=T, workers=4, name=os.path.basename(cfg))
         wit = sorted(g.lines.get(tag, []), key=len)[:6]
@@ -32,7 +48,8 @@ def run(ctx):
             write_json(wp, wit)
             s, _ = ctx.drive(drv, ["-mode", "witness", "-kind", kind, "-in", wp, "-dir", os.path.join(ctx.scratch, "data-" + kind), "-trace", wt],
                              name="c42-witness-" + kind, timeout=T)
-            ctx.notes.append("known finding %s: %d/%d model witnesses reproduce on the real pool" % (
+            pending(ctx, tally, s)
+            ctx.notes.append("%s: %d/%d model witnesses reproduce on the real pool" % (
                 {"gap": "C42-recheck-gap-after-overlap", "limbo": "C42-limbo-stale-block"}[kind],
                 s.get("extra", {}).get("reproduced_on_real_pool", 0), len(wit)))
             traces.append((wt, s["traces"]))
@@ -51,14 +68,14 @@ def run(ctx):
     write_json(bp, bs)
     s, _ = ctx.drive(drv, ["-mode", "replay", "-in", bp, "-dir", os.path.join(ctx.scratch, "data-r"), "-trace", bt], name="c42-replay", timeout=T)
     traces.append((bt, s["traces"]))
-    panics += s.get("extra", {}).get("known_panics_C42_add_panic_after_overflow", 0)
+    pending(ctx, tally, s)
     # V: seeded random operation sequences on the real pool
     rt = os.path.join(ctx.scratch, "rec.ndjson")
     s, _ = ctx.drive(drv, ["-mode", "record", "-dir", os.path.join(ctx.scratch, "data-v"), "-trace", rt, "-n", ctx.pick(12, 150), "-steps", 50],
                      name="c42-record", timeout=T)
     traces.append((rt, s["traces"]))
-    panics += s.get("extra", {}).get("known_panics_C42_add_panic_after_overflow", 0)
-    ctx.notes.append("known finding C42-add-panic-after-overflow: the real pool panicked %d time(s) in addLocked (recovered by the harness, see harness/cmd/c42 addPooled)" % panics)
+    pending(ctx, tally, s)
+    settle(ctx, tally)
     for tp, n in traces:
         ok, consumed, total, res = ctx.validate("pool/BlobPoolTrace", tp, ntraces=n, timeout=T)
         if not ok:
